@@ -4,14 +4,14 @@
 set -u
 export GOFLAGS=-mod=mod GOPROXY=off GOSUMDB=off GOTOOLCHAIN=local
 V=$(cd "$(dirname "$0")/.." && pwd)
-M=$1; PROPS=$2; TIER=${3:-quick}; SEED=${4:-1}
+M=$1; case "$M" in sed:*) ;; *) M=$(realpath "$M");; esac; PROPS=$2; TIER=${3:-quick}; SEED=${4:-1}
 D=$(mktemp -d /tmp/mut-XXXXXX)/bigbuff
 mkdir -p "$D"
 rsync -a --exclude .git /repo/ "$D/"
 trap 'rm -rf "$(dirname "$D")" "$V/work/mod/$(echo "$D" | tr / _)".*' EXIT
 case "$M" in
   sed:*) f=$(echo "$M" | cut -d: -f2); e=$(echo "$M" | cut -d: -f3-); cp "$D/$f" "$D/$f.orig"; sed -i "$e" "$D/$f"; if cmp -s "$D/$f" "$D/$f.orig"; then echo "MUTANT DID NOT CHANGE ANYTHING"; exit 3; fi; rm "$D/$f.orig" ;;
-  *) (cd "$D" && git apply --unsafe-paths "$(realpath "$M")") || { (cd "$D" && patch -p1 < "$(realpath "$M")") || { echo "PATCH FAILED"; exit 3; }; } ;;
+  *) (cd "$D" && git apply "$M") || { (cd "$D" && patch -p1 < "$M") || { echo "PATCH FAILED"; exit 3; }; } ;;
 esac
 (cd "$D" && go build -tags verif ./... ) || { echo "MUTANT DOES NOT BUILD"; exit 3; }
 rc=0
